@@ -52,6 +52,19 @@ Theorem C01_reader_never_desyncs : forall cfg,
 Proof. exact reader_in_sync_lemma. Qed.
 Print Assumptions C01_reader_never_desyncs.
 
+(* When no goroutine is inside WriteMessage, decoding the whole queue frame by frame yields
+   exactly the messages written and not yet read, in order, each with its own size. *)
+Theorem C01_queue_decodes_to_frames_written : forall cfg,
+  cf_lock cfg = true -> (forall g, In g (cf_reg cfg) -> inverts g) ->
+  forall st, reach cfg st -> forall s,
+  e_writers (ep_of st s) = [] ->
+  exists whole : list frame_rec,
+    queue st s = concat (map fr_bytes whole) /\
+    raw_decode_all (S (length whole)) (cf_reg cfg) (cf_lim cfg) (queue st s)
+    = (map (fun '(ids, m, f) => (m, ids, blen f)) whole, Ok tt).
+Proof. exact queue_decodes_lemma. Qed.
+Print Assumptions C01_queue_decodes_to_frames_written.
+
 (* The lock hypothesis is necessary: in the counter-model without the write lock a schedule
    of two callers whose chunks interleave makes the peer's handler see a body that no call
    supplied (bytes of the second frame inside the first message). *)
